@@ -113,19 +113,9 @@ def c11_7(facts, res, e, rule="C11-7"):
                         "loses its defaults or gets a duplicate" % ("!" * (negs % 2), quant["m"], "!" if x else ""), e["file"], quant.get("ln"), {}))
 
 
-def run(facts, tier):
-    res = Result("C11")
-    res.explanation = (
-        "static (narrow): C11-1 the two implementations of the 3-case algorithm of XML 1.0 3.3.3 (XmlAttribute::normalized_value "
-        "for the items of an attribute, expand_entity for replacement text) agree arm by arm: literal text goes through "
-        "normalize_ws, character references written in the attribute do not (those of an entity literal belong to the "
-        "replacement text and do), entity references recurse; C11-2 normalize_ws replaces exactly #x20, #xD, "
-        "#xA, #x9 by one space (constants read from the typed tree); C11-3 collapsing of spaces is skipped only for CDATA; "
-        "C11-4 an attribute is synthesised from a declaration only for a default value; C11-5 synthesised attributes know their "
-        "element; all attribute-list declarations of an element are consulted; C11-6 entity recursion is guarded (R03-3).")
-    res.assumptions = ["the normalised value as a string is not computed"]
+def c11_1(facts, res, rule="C11-1"):
     # ---- C11-1
-    st = res.rule("C11-1", instances=0)
+    st = res.rule(rule, instances=0)
     f = facts.fn("xml_info::<XmlAttribute as Attribute>::normalized_value")
     a = arms_by_variant(f, "XmlAttributeValue")
     want = {"Char": ({"character_code"}, {"normalize_ws"}), "Entity": ({"attr_value_from_name"}, {"normalize_ws"}),
@@ -136,7 +126,7 @@ def run(facts, tier):
         ok = ns is not None and must <= ns and not (must_not & ns)
         res.oblige(1, ok)
         if not ok:
-            res.add(Finding("C11-1", "normalized_value|" + v, "normalized_value: the %s arm calls %s; expected %s and not %s"
+            res.add(Finding(rule, "normalized_value|" + v, "normalized_value: the %s arm calls %s; expected %s and not %s"
                             % (v, sorted(ns or []), sorted(must), sorted(must_not)), f["file"], f["line"], {}))
     g = facts.fn("xml_info::expand_entity")
     b = arms_by_variant(g, "XmlEntityValue")
@@ -150,8 +140,23 @@ def run(facts, tier):
         ok = ns is not None and must <= ns and not (must_not & ns)
         res.oblige(1, ok)
         if not ok:
-            res.add(Finding("C11-1", "expand_entity|" + v, "expand_entity: the %s arm calls %s; expected %s and not %s"
+            res.add(Finding(rule, "expand_entity|" + v, "expand_entity: the %s arm calls %s; expected %s and not %s"
                             % (v, sorted(ns or []), sorted(must), sorted(must_not)), g["file"], g["line"], {}))
+
+
+def run(facts, tier):
+    res = Result("C11")
+    res.explanation = (
+        "static (narrow): C11-1 the two implementations of the 3-case algorithm of XML 1.0 3.3.3 (XmlAttribute::normalized_value "
+        "for the items of an attribute, expand_entity for replacement text) agree arm by arm: literal text goes through "
+        "normalize_ws, character references written in the attribute do not (those of an entity literal belong to the "
+        "replacement text and do), entity references recurse; C11-2 normalize_ws replaces exactly #x20, #xD, "
+        "#xA, #x9 by one space (constants read from the typed tree); C11-3 collapsing of spaces is skipped only for CDATA; "
+        "C11-4 an attribute is synthesised from a declaration only for a default value; C11-5 synthesised attributes know their "
+        "element; all attribute-list declarations of an element are consulted; C11-6 entity recursion is guarded (R03-3).")
+    res.assumptions = ["the normalised value as a string is not computed"]
+    c11_1(facts, res)
+    f = facts.fn("xml_info::<XmlAttribute as Attribute>::normalized_value")
     # ---- C11-2
     st2 = res.rule("C11-2", instances=1)
     h = facts.fn("xml_info::normalize_ws")
@@ -217,7 +222,7 @@ def run(facts, tier):
     # ---- C11-6
     reach, _ = facts.reachable([facts.fn("xml_info::attr_value_from_name")["id"]])
     c03.r03_3(facts, res, "C11-6", reach, {})
-    guards.rule(facts, res, "C11-6g", [facts.fns[x] for x in reach if x in facts.fns], want=("G1", "G2", "G3"), floor=1)
+    guards.rule(facts, res, "C11-6g", [facts.fns[x] for x in reach if x in facts.fns], want=("G1", "G2", "G3", "G4"), floor=1)
     # ---- C11-7: "is the attribute written?" = no written attribute has the declaration's qualified name
     c11_7(facts, res, e)
     res.functions_analysed = 6
